@@ -127,6 +127,7 @@ func FindAnchors(prog *Program) *Anchors {
 			}
 		}
 	}
+	a.Matchers = refineMatchers(prog, a.Matchers)
 	a.GetOpts = optRoles(prog).getOpts
 	optGetOpts = a.GetOpts
 	need("evaluate dispatcher (func(grammar.Expression, …) (bool, error) reachable from Evaluate)", a.Dispatch)
@@ -172,4 +173,85 @@ func (p *Program) enumConsts(t types.Type) []*types.Const {
 	}
 	sort.Slice(out, func(i, j int) bool { return out[i].Pos() < out[j].Pos() })
 	return out
+}
+
+// refineMatchers: of the functions with the matcher signature, the matchers proper are those that implement a positive
+// operator. Two kinds of function share the signature without the role and are removed:
+//   - dispatch wrappers: they hand exactly their own (expression, value) pair on to another function of the same signature
+//     and choose it from the operator (they read expression.Operator) or from data they carry (they have a receiver);
+//   - parts of a matcher: every caller is itself a matcher.
+func refineMatchers(prog *Program, cands []*ssa.Function) []*ssa.Function {
+	isCand := map[*ssa.Function]bool{}
+	for _, f := range cands {
+		isCand[f] = true
+	}
+	sameSig := func(t types.Type) bool {
+		sig, ok := t.Underlying().(*types.Signature)
+		return ok && isBoolErr(sig) && sig.Params().Len() == 2 && namedIs(sig.Params().At(0).Type(), grammarPath, "MatchExpression") && namedIs(sig.Params().At(1).Type(), "reflect", "Value")
+	}
+	wrapper := map[*ssa.Function]bool{}
+	for _, f := range cands {
+		n := len(f.Params)
+		if n < 2 {
+			continue
+		}
+		pe, pv := f.Params[n-2], f.Params[n-1]
+		forwards, readsOp := false, false
+		for _, b := range f.Blocks {
+			for _, ins := range b.Instrs {
+				switch x := ins.(type) {
+				case *ssa.Call:
+					args := x.Call.Args
+					if len(args) >= 2 && args[len(args)-2] == ssa.Value(pe) && args[len(args)-1] == ssa.Value(pv) {
+						if callee := x.Call.StaticCallee(); callee != nil {
+							if isCand[callee] {
+								forwards = true
+							}
+						} else if !x.Call.IsInvoke() && sameSig(x.Call.Value.Type()) {
+							forwards = true
+						}
+					}
+				case *ssa.FieldAddr:
+					if x.X == ssa.Value(pe) && fieldName(x.X.Type(), x.Field) == "Operator" {
+						readsOp = true
+					}
+				}
+			}
+		}
+		if forwards && (readsOp || f.Signature.Recv() != nil) {
+			wrapper[f] = true
+		}
+	}
+	out := map[*ssa.Function]bool{}
+	for _, f := range cands {
+		if !wrapper[f] {
+			out[f] = true
+		}
+	}
+	for changed := true; changed; {
+		changed = false
+		for f := range out {
+			n := prog.CG.Nodes[f]
+			if n == nil || len(n.In) == 0 {
+				continue
+			}
+			all := true
+			for _, e := range n.In {
+				if c := e.Caller.Func; !out[c] || c == f {
+					all = false
+				}
+			}
+			if all {
+				delete(out, f)
+				changed = true
+			}
+		}
+	}
+	var res []*ssa.Function
+	for _, f := range cands {
+		if out[f] {
+			res = append(res, f)
+		}
+	}
+	return res
 }
